@@ -117,7 +117,7 @@ PROPS = {
     ),
     'C19': dict(
         title='functools.partial', proj='proj_full', oracle='c19',
-        quick=[S_('bind'), S_('partial'), S_('maskp'), S_('partialfwd', count=480), S_('programs', count=16000, routes=('param',), ops=('pauto',))],
+        quick=[S_('bind'), S_('partial'), S_('maskp'), S_('partialfwd', count=2200), S_('programs', count=16000, routes=('param',), ops=('pauto',))],
         thorough=[S_('bind'), S_('partial'), S_('maskp'), S_('partialfwd', count=8000), S_('programs', count=160000, routes=('param',), ops=('pauto',))],
         runtime_part='functools.partial.__call__ (the oracle really calls the partial objects)',
         level_text='signature(partial) is _mask in partial mode: exactness w.r.t. "f accepts the bound plus the call arguments" is a theorem about the Lean '
